@@ -83,7 +83,7 @@ def check(rep, tier, seed):
     # writer: numpy must load what sfs writes, for every header length modulo 64
     shapes, residues = shapes_all_header_lengths(rng)
     wcases = []
-    for sh in shapes + [[3], [2, 3], [4, 1, 2]]:
+    for sh in shapes + [[3], [2, 3], [4, 1, 2], [1023], [1024], [1025], [2049], [33, 33], [8192], [8193], [3, 5000]]:
         vals = [random_bits(rng) for _ in range(elements(sh))]
         wcases.append((sh, vals))
     written = run_impl(["npyw %s %s" % (fmt(sh), ",".join(tok(v) for v in vals)) for sh, vals in wcases])
